@@ -232,6 +232,10 @@ def determined_network(draw, noise=1, dims=None, free=False, allow_cov=True, all
     known = ids[:nfix]
     hz_recipes = ["polar", "intersection", "trilateration", "azdist", "coords", "vector", "traverse"]
     z_recipes = ["dh", "trig", "vector", "coords"]
+    if free:
+        # observed coordinates carry an absolute datum: not part of a free network
+        hz_recipes.remove("coords")
+        z_recipes.remove("coords")
     for p in P[nfix:]:
         pid = p["id"]
         rec_xy = rec_z = None
@@ -276,7 +280,7 @@ def determined_network(draw, noise=1, dims=None, free=False, allow_cov=True, all
             got_z = (rec_xy == "vector") or (rec_xy == "coords" and B.coords and B.coords[-1]["id"] == pid
                                              and "z" in B.coords[-1]["dims"])
             if not got_z:
-                rec_z = draw(st.sampled_from(z_recipes if has_xy else ["dh", "coords"]))
+                rec_z = draw(st.sampled_from(z_recipes if has_xy else [r for r in z_recipes if r in ("dh", "coords")]))
                 if rec_z == "vector" and not has_xy:
                     rec_z = "dh"
                 if rec_z == "dh":
@@ -376,12 +380,34 @@ def _iso(dim, sd):
 
 
 def _make_free(draw, net):
-    """turn the fixed points into constrained/free ones (free network)"""
-    for p in net["points"]:
+    """turn the fixed points into constrained ones (free network) and tie them together
+    by mutual observations, which fixed points did not need"""
+    base = [p for p in net["points"] if p["xy"] == "fix" or p["z"] == "fix"]
+    has_xy = any(p["xy"] == "fix" for p in base)
+    has_z = any(p["z"] == "fix" for p in base)
+    noise = net.get("noise", 1)
+    for p in base:
         if p["xy"] == "fix":
             p["xy"] = "constr"
         if p["z"] == "fix":
             p["z"] = "constr"
+    extra = []
+    for i in range(len(base)):
+        for j in range(i + 1, len(base)):
+            a, b = base[i]["id"], base[j]["id"]
+            if has_xy:
+                extra.append({"k": "obs", "from": a, "from_dh": None, "orient": 0.0, "cov": None,
+                              "obs": [{"t": "distance", "to": b, "sd": 5.0, "e": _noise(draw, 5.0, noise)}]})
+            if has_z:
+                extra.append({"k": "hdiff", "cov": None,
+                              "obs": [{"from": a, "to": b, "sd": 2.0, "dist": None, "e": _noise(draw, 2.0, noise)}]})
+    if has_xy and len(base) >= 3:
+        # distances alone leave (nearly) collinear base points weakly determined: add a direction set
+        a = base[0]["id"]
+        extra.append({"k": "obs", "from": a, "from_dh": None, "orient": 0.0, "cov": None,
+                      "obs": [{"t": "direction", "to": b["id"], "sd": 10.0, "e": _noise(draw, 10.0, noise)} for b in base[1:]]})
+    net["clusters"] += extra
+    net["free"] = True
 
 
 def truth_jacobian(net):
